@@ -17,7 +17,7 @@ package pushback
 //@ model N(bc) = feedlen(bc.byteChan)
 //@ model pbn(bc) = len(bc.pushBackBuffer)
 //@ model cur(bc) = recvd(bc.byteChan) - len(bc.pushBackBuffer)
-//@ invariant[C02,C07] self.cur >= 0 && recvd(self.byteChan) <= self.N
+//@ invariant[C02] self.cur >= 0 && recvd(self.byteChan) <= self.N
 //@ invariant[C02] seqeq(self.pushBackBuffer, self.I, self.cur, self.cur + self.pbn)
 
 //@ func New
@@ -30,7 +30,7 @@ package pushback
 //@ ensures[C02] old(bc.cur) < bc.N ==> r1 == nil && r0 == bc.I[old(bc.cur)]
 //@ ensures[C02,C07] old(bc.cur) < bc.N ==> r1 == nil && bc.cur == old(bc.cur) + 1
 //@ ensures[C02,C07] old(bc.cur) >= bc.N ==> r1 != nil && bc.cur == old(bc.cur)
-//@ ensures[C02] r1 != nil ==> errmsg(r1) == "done"
+//@ ensures[C02,C07] r1 != nil ==> errmsg(r1) == "done"
 //@ ensures[C02,C07] bc.pbn == ite(old(bc.pbn) > 0, old(bc.pbn) - 1, 0)
 
 //@ func (*ByteChannel).PushBack
